@@ -115,7 +115,9 @@ def proxy_tier(res, tier, shard, nshards, scratch):
                     dict(ctx, reference_rows=ref[0], reference_calls=list(ref[1])), replay=rep, features={"what": "signature"},
                 ))
             if len(sig) % k_points or sig[: len(sig) // k_points] * k_points != sig:
-                res.violate(Violation("C16", "per-point-io-not-constant", ctx, replay=rep, features={"what": "per-point"}))
+                # informational only: the property asks for a cost independent of the database SIZE (checked above
+                # against the reference signature), not for every point of one call to cost the same
+                res.count("proxy.per_point_signature_not_periodic")
             res.counters.setdefault("proxy.calls_per_point", per_point)
 
 
@@ -167,6 +169,78 @@ def history_tier(res, tier, seed, shard, scratch):
                         return
         finally:
             s.discard()
+
+
+def aborted_op_tier(res, tier, seed, shard, scratch):
+    """Inserts that follow an operation aborted half-way (raising predicate / updater) on files larger than the
+    I/O buffers, and that follow partial reads: still pure appends, still no reads."""
+    from tinyflux import MeasurementQuery, Point, TagQuery, TinyFlux
+
+    class Abort(RuntimeError):
+        pass
+
+    def boom_after(k):
+        n = [0]
+
+        def f(v):
+            n[0] += 1
+            if n[0] > k:
+                raise Abort("aborted")
+            return True
+
+        return f
+
+    n_cases = 6 if tier == "quick" else 40
+    for i in range(n_cases):
+        rng = rng_for("C16", tier, seed, shard, "aborted", i)
+        n = rng.choice([40, 150, 400, 1200])
+        auto = rng.random() < 0.5
+        path = scratch.new_db_path()
+        build_file(path, n)
+        hub = ioproxy.IOHub()
+        hub.primary = path
+        try:
+            with ioproxy.Installed(hub), quiet_stdout():
+                db = TinyFlux(path, auto_index=auto)
+                k = rng.choice([0, 3, n // 2, n - 2])
+                kind = rng.choice(["update-predicate", "remove-predicate", "update-updater", "search-predicate", "get"])
+                try:
+                    if kind == "update-predicate":
+                        db.update(TagQuery().k.test(boom_after(k)), tags={"z": "1"})
+                    elif kind == "remove-predicate":
+                        db.remove(TagQuery().j.test(boom_after(k)))
+                    elif kind == "update-updater":
+                        ba = boom_after(k)
+                        db.update_all(tags=lambda t: ({"z": "1"} if ba(t) else {}))
+                    elif kind == "search-predicate":
+                        db.search(MeasurementQuery().test(boom_after(k)))
+                    else:
+                        db.get(TagQuery().j == str(k % 7))
+                except (Abort, ValueError):
+                    res.count("aborted_ops")
+                for r in range(2):
+                    before = ioproxy.kernel_bytes(path)
+                    rec = ioproxy.Recorder()
+                    hub.monitor = rec
+                    db.insert(Point(time=from_us(BASE_US + (n + 50 + r) * 1_000_000), tags={"k": "after-abort"}, fields={"x": r}))
+                    hub.monitor = ioproxy.NullMonitor()
+                    after = ioproxy.kernel_bytes(path)
+                    res.evaluations += 1
+                    res.count("aborted.inserts_observed")
+                    res.seen(("aborted", kind, n, auto, k, r))
+                    ctx = {"auto_index": auto, "db_rows": n, "before_insert": f"{kind} aborted after {k} evaluations", "calls": rec.sigs()[:20],
+                           "bytes_before": len(before), "bytes_after": len(after)}
+                    rep = {"aborted": kind, "db_rows": n, "k": k, "auto_index": auto}
+                    if not (after.startswith(before) and len(after) > len(before)):
+                        res.violate(Violation("C16", "insert-not-append-only", ctx, replay=rep, features={"what": "prefix", "origin": "aborted-op"}))
+                        break
+                    rd = [repr(e) for e in rec.events if e.kind in READ_KINDS]
+                    if rd:
+                        res.violate(Violation("C16", "insert-reads-existing-data", dict(ctx, reads=rd[:5]), replay=rep, features={"what": "reads", "origin": "aborted-op"}))
+                        break
+                db.close()
+        finally:
+            scratch.drop_db_dir(path)
 
 
 def strace_tier(res, tier, shard, scratch):
@@ -223,9 +297,11 @@ def run(res, tier, seed, shard, nshards):
     with Scratch("c16") as scratch:
         proxy_tier(res, tier, shard, nshards, scratch)
         history_tier(res, tier, seed, shard, scratch)
+        aborted_op_tier(res, tier, seed, shard, scratch)
         strace_tier(res, tier, shard, scratch)
     res.require("proxy.inserts_observed")
     res.require("history.inserts_observed")
+    res.require("aborted.inserts_observed")
     res.assumptions += [
         "I/O cost = calls made by tinyflux.storages on the database handle (proxy) / syscalls on the database fd (strace); CPU work is not measured",
     ]
